@@ -37,12 +37,15 @@ def classify(fmt, name, b, err):
     """violation key: the cause where it is one of the recorded ones, else format:member"""
     import re
     m = re.search(r"line (\d+), column (\d+)", err)
-    at = b""
+    at = line = b""
     if m:
         lines = b.split(b"\n")
         ln, col = int(m.group(1)), int(m.group(2))
         if ln - 1 < len(lines):
-            at = lines[ln - 1][max(0, col - 16):col + 16]
+            line = lines[ln - 1]
+            at = line[max(0, col - 16):col + 16]
+    # (expat counts columns in characters, the slice above is in bytes: on lines with multi-byte text look at the whole line)
+    if any(c >= 0x80 for c in line): at = line
     # the lexer passes anything of the form &alnum; through as an entity; XHTML knows only the five predefined ones
     # (names like &nbsp; are "undefined", things like &1; are not even names)
     if fmt == "epub" and (("undefined entity" in err and re.search(rb"&[A-Za-z][A-Za-z0-9]*;", at)) or
@@ -107,6 +110,9 @@ def run(rep, tier, seed):
         if kind in seen: continue
         seen.add(kind)
         def failing(b, r=r, kind=kind):
+            try: b.decode("utf-8")
+            except UnicodeDecodeError: return False            # the property is about valid UTF-8 sources: do not shrink out of it
+            if any(c < 0x20 and c not in (9, 10, 13) for c in b): return False
             x = tchk.convert([(b, r.fmt, r.ext, r.lang)])[0]
             if not x.ok(): return kind == "impl-crash"
             try:
